@@ -51,6 +51,10 @@ CHECKS = {
    technique="TLC model checking of the walker machine (AnkoWalker.tla) on all trees up to 5 nodes + TLC trace validation of recorded astutil.Walk runs (with injected callback failures) over a kind x slot x kind grammar corpus, nodes enumerated by generic reflection",
    text="The walker specification (parent before child, finish only when everything was presented, a callback error ends the walk immediately) is explored exhaustively on small trees; every expression kind in every expression slot and every statement kind in every statement slot is parsed by the real parser, walked by the real walker and the recorded walk must be a behaviour of the machine, against the node set obtained independently by reflection.",
    note="Trusted: the reflection-based node enumeration (exported fields, *ast.TypeStruct excluded), TLC. Bounds: depth-2 kind x slot x kind corpus (about 3.7k sources, all 50 node kinds) + language-core corpora; callback failure injected at the first, middle and last call."),
+ "C18": dict(level="model_checking", design="5 (C18), 3.9",
+   technique="TLC model checking of AnkoCli.tla (phases flags/setup/read/execute/exit) + TLC validation of observations of the built ./anko (exit status, stdout) against the library verdict for the same source obtained in a child process",
+   text="The command's small state machine is model-checked exhaustively; the real binary is built from the working tree and run over several hundred scripts (succeeding, failing at parse time, failing at run time, printing, using args) in both supply modes and with unreadable files, and every observation must be what the machine demands given vm.Execute's verdict in an equally prepared environment.",
+   note="Trusted: TLC; stdout abstracted to (prefix equal to the library run's output, number of further lines). Interactive mode, -e \"\" and diagnostic texts are not asserted. Bounds: ~600 (quick) / ~3.5k (thorough) process launches."),
 # <<ADD>>
 }
 
